@@ -7,7 +7,7 @@ NAMES = [None, "", " ", "Joe", "Joe Q. Public", "  padded  ", "a  b", "a\tb", "M
          "comma, inside", "dot.", ".", "a:b", "[bracket]", "NBSP\u00a0x", "LS\u2028x"]
 ADDRS = ["a@b.c", "user@example.com", "first.last@example.org", "a+b@x.y", "-x@o.c", "\"q\"@example.org", "\"a b\"@example.com", "\"a\\\"b\"@e.org",
          "\"<x>\"@e.org", "用户@例え.jp", "üser@example.com", "u@[127.0.0.1]", "u@[IPv6:::1]", "a@bücher.de", "x@1.1.1.1", "a!b@c.d", "a@b-c.d", "\"a@b\"@c.d",
-         "\"a  b\"@c.d", "a'b@c.d"]
+         "\"a  b\"@c.d", "a'b@c.d", "root@localhost", "a@b"]
 GOOD_ADDRS = ["a@b.c", "user@example.com", "first.last@example.org", "a+b@x.y", "-x@o.c", "用户@例え.jp", "üser@example.com", "a@bücher.de", "x@1.1.1.1"]
 
 
@@ -50,7 +50,7 @@ def list_cases(rng, n):
     return cases
 
 
-PARSE_TEXTS = ["a@b.c", " a@b.c ", "<a@b.c>", "Joe <a@b.c>", "\"Joe Q\" <a@b.c>", "Joe Q. Public <a@b.c>", "a@b.c, x@y.z", "a@b.c,x@y.z", "A <a@b.c>, \"X, Y\" <x@y.z>",
+PARSE_TEXTS = ["a@b", "root@localhost", "Joe <root@localhost>", "a@b, c@d", "a@b.", "a@.b", "a@b.c", " a@b.c ", "<a@b.c>", "Joe <a@b.c>", "\"Joe Q\" <a@b.c>", "Joe Q. Public <a@b.c>", "a@b.c, x@y.z", "a@b.c,x@y.z", "A <a@b.c>, \"X, Y\" <x@y.z>",
                "", ",", "a@b.c,", ",a@b.c", "a@", "@b", "a@b@c", "Joe a@b.c", "<a@b.c", "a@b.c>", "\"unterminated <a@b.c>", "a b@c.d", "\"a b\"@c.d", "a.b.@c.d", ".a@c.d",
                "a@[1.1.1.1]", "Joe <a@[1.1.1.1]>", "\u00a0a@b.c\u2028", "a @b.c", "a@ b.c", "A  B   <a@b.c>", "\"a\\\"b\" <a@b.c>", "=?utf-8?b?w6k=?= <a@b.c>", "é <a@b.c>", "é@b.c",
                "a@é.c", "a@😀.c", "Joe <\"q r\"@x.y>", "x <a@b.c> trailing", "a@b.c x@y.z", "A. B. <a@b.c>", ". <a@b.c>", "a@b.c;", "a@b..c", "a@-b.c"]
